@@ -3,6 +3,7 @@
 #include "rkcommon/tasking/schedule.h"
 #include "../rt/sim_api.h"
 #include "c03.h"
+#include <vector>
 
 using rkcommon::tasking::AsyncLoop;
 
@@ -21,6 +22,18 @@ extern "C" void c03_run()
     c03_wait_blockers(p->init_threads - 1);
   }
   int cost = p->body_cost;
+  // an application with many AsyncLoops: the others exist (idle) while the scripted one is driven
+  std::vector<AsyncLoop *> crowd;
+  if (p->crowd) {
+    SimTag t(SIM_TAG_SUT);
+    for (int i = 0; i < p->crowd; i++) {
+      crowd.push_back(new AsyncLoop([]() { c03_crowd_body(); }, AsyncLoop::THREAD));
+      if (i % 5 == 4) {  // some have been used before
+        crowd.back()->start();
+        crowd.back()->stop();
+      }
+    }
+  }
   AsyncLoop *loop;
   {
     SimTag t(SIM_TAG_SUT);
@@ -110,6 +123,8 @@ extern "C" void c03_run()
     c03_ev(C03_DTOR_INVOKE);
     delete loop;
     c03_ev(C03_DTOR_RETURN);
+    for (AsyncLoop *l : crowd)
+      delete l;  // every one of these destructors has to return as well
   }
   if (p->busy_workers) {
     sim_set_fair(0);
